@@ -199,10 +199,7 @@ def r3_hand_back(ctx) -> None:
     else:
         r.violation("C17.R3", rp.qual, "for i in range(len(s))", "placeholders are not expanded from left to right", rp.loc)
     rr = prog.func(T + ".SigmaRegularExpression.replace_placeholders")
-    if "self.regexp.replace_placeholders(callback)" in unparse(rr.node) and "self.flags" in unparse(rr.node):
-        r.ok("C17.R3", rr.qual, "regular expressions expand through the same cross product and keep their flags", rr.loc)
-    else:
-        r.violation("C17.R3", rr.qual, "SigmaRegularExpression(str(sigmastr), self.flags) for sigmastr in self.regexp.replace_placeholders(callback)", "regular expression expansion does not use the string cross product or loses the flag set", rr.loc)
+    _r3_regex_expansion(ctx, rr)
     ip = prog.func(T + ".SigmaString.insert_placeholders")
     bad = [n for n in walk_no_nested(ip.node) if isinstance(n, ast.Attribute) and n.attr == "original"]
     if bad:
@@ -336,3 +333,80 @@ def r8_filters_honoured(ctx) -> None:
                     else:
                         r.violation("C17.R8", f.qual, short(c, 80), "the test considers every placeholder of the value, also those excluded from this item: with include: [a] a value 'foo%b%' makes query_expression_placeholders abort the conversion although %b% is resolved by a later item", loc)
     r.floor("C17.R8", 2)
+
+
+def _r3_regex_expansion(ctx, rr: FuncInfo) -> None:
+    """SigmaRegularExpression.replace_placeholders interpreted (sa.tabulate) on a stand-in expression 'foo%p%bar' with a
+    callback that yields a multi-character wildcard, a single-character wildcard, text and a placeholder: every replacement
+    must give one expression (cross product of the string expansion), with the flags of the original, and a wildcard must be
+    written as the expression it stands for ('.*' / '.'), not as the bare character '*' / '?' (a quantifier in a regex)."""
+    from ..tabulate import Interp, Raised
+    r = ctx.r
+
+    class _SC:
+        def __init__(self, ch):
+            self.ch = ch
+
+    MULTI, SINGLE = _SC("*"), _SC("?")
+    sc = type("SpecialChars", (), {"WILDCARD_MULTI": MULTI, "WILDCARD_SINGLE": SINGLE})
+
+    class _PH:
+        def __init__(self, name):
+            self.name = name
+
+    class _S:  # SigmaString stand-in: parts are text, wildcards or placeholders
+        def __init__(self, t="", escape=True):
+            self.parts = [t] if t else []
+
+        def __add__(self, o):
+            n = _S()
+            n.parts = self.parts + (o.parts if isinstance(o, _S) else [o])
+            return n
+
+        def __radd__(self, o):
+            n = _S()
+            n.parts = [o] + self.parts
+            return n
+
+        def __str__(self):
+            return "".join(p if isinstance(p, str) else (p.ch if isinstance(p, _SC) else f"%{p.name}%") for p in self.parts)
+
+        def contains_placeholder(self, *a, **k):
+            return any(isinstance(p, _PH) for p in self.parts)
+
+        def replace_placeholders(self, cb):
+            out = []
+            for rep in cb(_PH("p")):
+                out.append(_S("foo") + rep + _S("bar"))
+            return out
+
+    made = []
+
+    class _RX:
+        def __init__(self, text, flags=None, *a, **k):
+            self.text, self.flags, self.ph = text, flags, False
+            made.append(self)
+
+        def insert_placeholders(self):
+            self.ph = True
+            return self
+
+    me = type("R", (), {})()
+    me.regexp = _S("foo%p%bar")
+    me.flags = {"I"}
+
+    def cb(p):
+        return iter([MULTI, SINGLE, "abc", _PH("q")])
+    it = Interp({"self": me, "callback": cb, "SigmaRegularExpression": _RX, "SigmaString": _S, "SpecialChars": sc, "Placeholder": _PH}, max_steps=5000)
+    try:
+        out = it.call(rr.node.body)
+    except Raised as ex:
+        r.violation("C17.R3", rr.qual, "replace_placeholders on 'foo%p%bar'", f"raises {ex}", rr.loc)
+        return
+    got = [(x.text, x.flags == {"I"}, x.ph) for x in (out or [])]
+    want = [("foo.*bar", True, False), ("foo.bar", True, False), ("fooabcbar", True, False), ("foo%q%bar", True, True)]
+    if got == want:
+        r.ok("C17.R3", rr.qual, "regular expressions expand through the string cross product, keep their flags, write wildcards as '.*' / '.', and keep handed-back placeholders as placeholders", rr.loc)
+    else:
+        r.violation("C17.R3", rr.qual, f"replace_placeholders on 'foo%p%bar' gives {got}",
+                    f"specified {want} (text, flags kept, placeholders restored): a wildcard that replaces a placeholder inside a regular expression must be written as the expression it stands for — a bare '*' quantifies the preceding character (/foo*/ matches 'fo', not 'foobar') —, every replacement gives one expression and the flag set is kept", rr.loc)
